@@ -1,15 +1,16 @@
 #!/usr/bin/env python3
-"""Developer tool: validate seeded property-breaking changes in a scratch worktree of /repo.
-For each <dir>/patchK.diff + demoK.diff + metaK.json:
-  1. patch applied            -> the repository's own test suite still passes
-  2. patch + demo applied     -> the demonstration test fails
-  3. demo only                -> the demonstration test passes
-Usage: validate_seeds.py <seed root> <worktree dir> [ID ...]
-Prints one JSON line per seed; never touches /repo's working tree."""
+"""Developer tool: validate the seeded property-breaking changes under /verif/seeded/<ID>-<k>/ in a
+scratch worktree of /repo (never in /repo itself):
+  1. patch.diff applied            -> the repository's own test suite still passes
+  2. patch.diff + demo.diff        -> the demonstration test fails
+  3. demo.diff only                -> the demonstration test passes
+Usage: validate_seeds.py <worktree dir> [seed dir names ...]
+The result is recorded in seeded/<ID>-<k>/meta.json under "validation"."""
 import json, os, subprocess, sys, re
 
-root, wt = sys.argv[1], sys.argv[2]
-ids = sys.argv[3:] or sorted(d for d in os.listdir(root) if re.fullmatch(r'C\d\d', d))
+ROOT = '/verif/seeded'
+wt = sys.argv[1]
+seeds = sys.argv[2:] or sorted(d for d in os.listdir(ROOT) if re.fullmatch(r'C\d\d-\d', d))
 env = dict(os.environ, CARGO_NET_OFFLINE='true', CARGO_TARGET_DIR=wt + '/target')
 
 def sh(cmd, cwd=wt):
@@ -25,39 +26,43 @@ def tests(cmd):
     failed = sum(int(m) for m in re.findall(r'test result: \w+\. \d+ passed; (\d+) failed', out))
     return r.returncode, passed, failed, out
 
+head = subprocess.run('git -C /repo rev-parse --short HEAD', shell=True, capture_output=True, text=True).stdout.strip()
 if not os.path.isdir(wt):
     r = subprocess.run(f'git -C /repo worktree add --detach {wt} HEAD', shell=True, capture_output=True, text=True)
     if r.returncode != 0:
         print(r.stderr); sys.exit(2)
+else:
+    reset()
+    sh(f'git checkout -q --detach {head}')
 
-for pid in ids:
-    for k in (1, 2):
-        d = f'{root}/{pid}/out' if os.path.isdir(f'{root}/{pid}/out') else f'{root}/{pid}'
-        p, dm, mt = f'{d}/patch{k}.diff', f'{d}/demo{k}.diff', f'{d}/meta{k}.json'
-        if not os.path.exists(p):
-            continue
-        meta = json.load(open(mt))
-        res = {'id': pid, 'k': k}
-        reset()
-        if sh(f'git apply {p}').returncode != 0:
-            res['status'] = 'patch-does-not-apply'; print(json.dumps(res), flush=True); continue
-        rc, np_, nf, out = tests('cargo test --offline')
-        res['suite_with_patch'] = {'rc': rc, 'passed': np_, 'failed': nf}
-        if rc != 0:
-            res['status'] = 'suite-fails-with-patch'; res['tail'] = out[-600:]; print(json.dumps(res), flush=True); continue
-        if sh(f'git apply {dm}').returncode != 0:
-            res['status'] = 'demo-does-not-apply'; print(json.dumps(res), flush=True); continue
-        cmd = meta['demo_cmd']
-        rc, np_, nf, out = tests(cmd)
-        res['demo_with_patch'] = {'rc': rc, 'passed': np_, 'failed': nf}
-        if rc == 0 or nf == 0:
-            res['status'] = 'demo-does-not-fail-with-patch'; print(json.dumps(res), flush=True); continue
-        if sh(f'git apply -R {p}').returncode != 0:
-            res['status'] = 'cannot-revert'; print(json.dumps(res), flush=True); continue
-        rc, np_, nf, out = tests(cmd)
-        res['demo_without_patch'] = {'rc': rc, 'passed': np_, 'failed': nf}
-        res['status'] = 'valid' if (rc == 0 and np_ >= 1) else 'demo-fails-without-patch'
-        if res['status'] != 'valid':
-            res['tail'] = out[-600:]
-        print(json.dumps(res), flush=True)
+for sd in seeds:
+    d = f'{ROOT}/{sd}'
+    agent = json.load(open(d + '/agent_meta.json'))
+    res = {'repo_head': head}
+    def done(status, **kw):
+        res['status'] = status; res.update(kw)
+        mp = d + '/meta.json'
+        meta = json.load(open(mp)) if os.path.exists(mp) else {}
+        meta['validation'] = res
+        json.dump(meta, open(mp, 'w'), indent=1)
+        print(sd, status, flush=True)
+    reset()
+    if sh(f'git apply {d}/patch.diff').returncode != 0:
+        done('patch-does-not-apply'); continue
+    rc, np_, nf, out = tests('cargo test --offline')
+    res['suite_with_patch'] = {'cmd': 'cargo test --offline', 'rc': rc, 'passed': np_, 'failed': nf}
+    if rc != 0:
+        done('suite-fails-with-patch', tail=out[-600:]); continue
+    if sh(f'git apply {d}/demo.diff').returncode != 0:
+        done('demo-does-not-apply'); continue
+    cmd = agent['demo_cmd']
+    rc, np_, nf, out = tests(cmd)
+    res['demo_with_patch'] = {'cmd': cmd, 'rc': rc, 'passed': np_, 'failed': nf}
+    if rc == 0 or nf == 0:
+        done('demo-does-not-fail-with-patch'); continue
+    if sh(f'git apply -R {d}/patch.diff').returncode != 0:
+        done('cannot-revert'); continue
+    rc, np_, nf, out = tests(cmd)
+    res['demo_without_patch'] = {'cmd': cmd, 'rc': rc, 'passed': np_, 'failed': nf}
+    done('valid' if (rc == 0 and np_ >= 1) else 'demo-fails-without-patch')
 reset()
